@@ -9,7 +9,10 @@
 // nothing.
 package verifhook
 
-import "sync/atomic"
+import (
+	"reflect"
+	"sync/atomic"
+)
 
 // Enabled reports whether the hooks are compiled in.
 const Enabled = true
@@ -78,6 +81,45 @@ func AwaitRLock(site string, key uint64, l RLocker) {
 			return false
 		})
 	}
+}
+
+// AwaitLockAny is AwaitLock for a lock given as a pointer to whatever expression Lock is called on:
+// a pointer to a mutex value, to a struct embedding one, to a mutex pointer or to a locker interface.
+// It is meant for call sites inserted mechanically, where the static type is not known. A lock that
+// cannot be probed is not waited for.
+func AwaitLockAny(site string, p any) {
+	if l, ok := lockerOf(p).(Locker); ok {
+		AwaitLock(site, 0, l)
+	}
+}
+
+// AwaitRLockAny is AwaitLockAny for the read side of a RWMutex.
+func AwaitRLockAny(site string, p any) {
+	if l, ok := lockerOf(p).(RLocker); ok {
+		AwaitRLock(site, 0, l)
+	}
+}
+
+func lockerOf(p any) any {
+	if _, ok := p.(Locker); ok {
+		return p
+	}
+	rv := reflect.ValueOf(p)
+	for i := 0; i < 3 && rv.IsValid(); i++ {
+		if rv.Kind() != reflect.Pointer && rv.Kind() != reflect.Interface {
+			break
+		}
+		if rv.IsNil() {
+			return nil
+		}
+		if rv.CanInterface() {
+			if _, ok := rv.Interface().(Locker); ok {
+				return rv.Interface()
+			}
+		}
+		rv = rv.Elem()
+	}
+	return nil
 }
 
 func Fault(site string, arg string) error {
